@@ -612,8 +612,9 @@ def resolve_strategy_inline_recurse(path, base, decisions):
                 }
 
             elif k == 'id':
-                # The id must be a string, keep the local one
-                cell[k] = lcell[k]
+                # The id must be a string, keep the local one (or the remote
+                # one if only the remote notebook has cell ids)
+                cell[k] = lcell[k] if k in lcell else rcell[k]
 
             elif k == 'execution_count':
                 cell[k] = None  # Clear
